@@ -17,6 +17,7 @@ CFG = {"doc": 0}
 
 _XSD = """<xs:schema xmlns:xs="http://www.w3.org/2001/XMLSchema" targetNamespace="urn:u1" xmlns="urn:u1" elementFormDefault="qualified">
  <xs:element name="g" type="xs:int"/>
+ <xs:element name="v"><xs:simpleType><xs:restriction base="xs:string"><xs:pattern value="[a-z]+"/></xs:restriction></xs:simpleType></xs:element>  <!-- a GLOBAL v, unrelated to the local v's -->
  <xs:element name="h" type="xs:string"/>
  <xs:element name="hm" type="xs:string" substitutionGroup="h"/>
  <xs:element name="r"><xs:complexType><xs:sequence>
@@ -71,7 +72,10 @@ def _ns():
 
 
 def configure(cfg):
+    CFG["tpl"] = None
     CFG.update(cfg)
+    if cfg.get("seqc"):
+        _schema_c()
 
 
 def _steps(root, elem):
@@ -128,7 +132,10 @@ def region_partial_substitution_member(**kw):
 def region_partial_ancestor_xmlns(**kw):
     """known finding C20-partial-ancestor-xmlns: element #5 of document 2 (w) uses a prefix declared on its parent b[1],
     a non-root ancestor of the selected element"""
-    return CFG["doc"] == 2 and kw.get("e") == 5
+    if CFG["doc"] != 2 or CFG.get("tpl") == "B":
+        return False
+    # ... or the wildcard spelling /p:r/p:b/* (chosen for the children of b: elements #4, #5, #8), which selects w as well
+    return kw.get("e") == 5 or (kw.get("v", 0) % 3 == 2 and kw.get("e") in (4, 5, 8))
 
 
 def pre_idx(fn, **kw):
@@ -228,11 +235,18 @@ def h_partial_errors(e: int, v: int) -> bool:
     if ei == 0 or ei >= len(elems):
         return True
     elem = elems[ei]
-    variant = (0, 1)[pick(v, 5) % 2]
+    variant = (0, 1, 2)[pick(v, 5) % 3]
     steps = _steps(res.root, elem)
-    path, ns = _spell(steps, variant)
-    selected = [x for x in res.root.iter() if _steps(res.root, x)[:len(steps)] == steps] if variant == 1 else \
-        [x for x in res.root.iter() if [t for t, p, c in _steps(res.root, x)[:len(steps)]] == [t for t, p, c in steps]]
+    if variant == 2:
+        # the last step is a wildcard: every child of the elements selected by the preceding steps
+        path, ns = _spell(steps[:-1], 0)
+        path += '/*'
+        head = [t for t, p, c in steps[:-1]]
+        selected = [x for x in res.root.iter() if [t for t, p, c in _steps(res.root, x)[:len(steps)]][:len(head)] == head and len(_steps(res.root, x)) >= len(steps)]
+    else:
+        path, ns = _spell(steps, variant)
+        selected = [x for x in res.root.iter() if _steps(res.root, x)[:len(steps)] == steps] if variant == 1 else \
+            [x for x in res.root.iter() if [t for t, p, c in _steps(res.root, x)[:len(steps)]] == [t for t, p, c in steps]]
     sel_paths = set()
     for x in selected:
         sel_paths.add(_spell(_steps(res.root, x), 1)[0])
@@ -242,6 +256,44 @@ def h_partial_errors(e: int, v: int) -> bool:
         want_err = [x for x in want_err if not x[0].startswith('duplicated value')]
     got_err = [(er.reason, er.path) for er in _schema().iter_errors(doc, path=path, namespaces=_ns())]
     return got_err == want_err
+
+
+# ---------------------------------------------------------------- template C: one prefix, two namespaces, one path text
+_V1 = ('<xs:schema xmlns:xs="http://www.w3.org/2001/XMLSchema" targetNamespace="urn:v1" elementFormDefault="qualified"><xs:import namespace="urn:v2"/>'
+       '<xs:element name="root"><xs:complexType><xs:sequence><xs:element name="item" type="xs:int" maxOccurs="unbounded"/></xs:sequence></xs:complexType></xs:element></xs:schema>')
+_V2 = ('<xs:schema xmlns:xs="http://www.w3.org/2001/XMLSchema" targetNamespace="urn:v2" elementFormDefault="qualified">'
+       '<xs:element name="root"><xs:complexType><xs:sequence><xs:element name="item" type="xs:boolean" maxOccurs="unbounded"/></xs:sequence></xs:complexType></xs:element></xs:schema>')
+DOCS_C = ['<o:root xmlns:o="urn:v1"><o:item>1</o:item><o:item>2</o:item></o:root>', '<o:root xmlns:o="urn:v1"><o:item>1</o:item><o:item>x</o:item></o:root>',
+          '<o:root xmlns:o="urn:v2"><o:item>true</o:item><o:item>0</o:item></o:root>', '<o:root xmlns:o="urn:v2"><o:item>true</o:item><o:item>7</o:item></o:root>']
+_SC = {}
+
+
+def _schema_c():
+    if "s" not in _SC:
+        _SC["s"] = xmlschema.XMLSchema10([_V1, _V2])
+    return _SC["s"]
+
+
+def pre_seq(fn, d0, d1, pv):
+    return 0 <= d0 < len(DOCS_C) and 0 <= d1 < len(DOCS_C) and 0 <= pv < 2
+
+
+def h_path_sequence(d0: int, d1: int, pv: int) -> bool:
+    """the same path text with the same prefix is used on two documents that bind the prefix to different namespaces: the
+    second call's partial results equal the matching part of its own whole-document results"""
+    sch = _schema_c()
+    path = ('/o:root/o:item', '/o:root/*')[pick(pv, 2)]
+    first = DOCS_C[pick(d0, len(DOCS_C))]
+    sch.decode(first, path=path, validation='lax')
+    list(sch.iter_errors(first, path=path))
+    doc = DOCS_C[pick(d1, len(DOCS_C))]
+    full, _ = sch.decode(doc, validation='lax')
+    part, _ = sch.decode(doc, path=path, validation='lax')
+    if part != full['o:item']:
+        return False
+    want = [(er.reason, er.path) for er in sch.iter_errors(doc)]
+    got = [(er.reason, er.path) for er in sch.iter_errors(doc, path=path)]
+    return got == want
 
 
 def h_depth(d: int) -> bool:
@@ -326,6 +378,8 @@ def obligations(tier, seed):
                     "timeout": 400, "twin_timeout": 30, "bound": "template B (no-namespace vocabulary, schema with the XSD namespace as default): every element x path spellings, empty namespace map"})
         out.append({"name": "partial-errors/B%d" % doc, "fn": "h_partial_errors", "pre": "pre_idx", "args": [["e", "int"], ["v", "int"]], "config": {"doc": doc, "tpl": "B"},
                     "timeout": 600, "twin_timeout": 30, "bound": "template B: a unique constraint on a repeated intermediate parent; paths selecting items under several parents"})
+    out.append({"name": "path-sequence", "fn": "h_path_sequence", "pre": "pre_seq", "args": [["d0", "int"], ["d1", "int"], ["pv", "int"]], "config": {"seqc": True},
+                "timeout": 400, "twin_timeout": 30, "bound": "two calls with one path text on documents binding the prefix to different namespaces (4 x 4 documents, 2 paths)"})
     out.append({"name": "partial-errors/doc2", "fn": "h_partial_errors", "pre": "pre_idx", "args": [["e", "int"], ["v", "int"]], "config": {"doc": 2},
                 "timeout": 600, "twin_timeout": 30, "bound": "the same document: errors of the partial validation vs the whole-document errors in the selected subtrees"})
     return out
